@@ -24,7 +24,7 @@ HOOK_COMMITS = ["6998a80 verif hook: worker-pool limits and forced copy path beh
 PROPS = {
     "C14": dict(
         facts=True,
-        families=[dict(name="c14")],
+        families=[dict(name="c14"), dict(name="race", race=True)],
         level_text="Theorems C14_checksum / C14_error_propagates / C14_sequence: for every byte string, read "
                    "chunking, buffer size, pool state and sequence of computations the model of ChecksumBuffer "
                    "returns hex(H(data)) for any incremental hasher meeting the Reset/Write/Sum contract; "
@@ -135,7 +135,7 @@ PROPS = {
     ),
     "C13": dict(
         facts=True,
-        families=[dict(name="pool", timeout=1500)],
+        families=[dict(name="pool", timeout=1500), dict(name="race", race=True)],
         level_text="Theorems C13_flat_terminates (every schedule of one directory level has at most 5N+4 steps), "
                    "C13_flat_progress / C13_flat_can_finish (no deadlock with >= 1 dedicated worker even if the shared "
                    "pool is never available), C13_stuck_without_dedicated, C13_flat_joined, C13_flat_tokens, "
@@ -151,7 +151,7 @@ PROPS = {
                      "Go channel, select and errgroup semantics as modelled"],
     ),
     "C01": dict(
-        families=[dict(name="tree", args=["-specs", "3,5,11,14"])],
+        families=[dict(name="tree", args=["-specs", "3,5,11,14"]), dict(name="pipe", args=["-specs", "3,11"])],
         level_text="Theorems C01_roundtrip (commit then checkout into an absent slot reproduces the tracked tree, links "
                    "followed, for both strategies on either side), C01_commit_ok, C01_commit_keeps_logical(_links), "
                    "C01_invariants_preserved/_initial, C01_nonutf8_fails over the model of commit.go/checkout.go with the "
@@ -169,7 +169,8 @@ PROPS = {
     "C02": dict(
         facts=True,
         families=[dict(name="tree", args=["-specs", "1,12"]), dict(name="hist", args=["-specs", "1,12"]),
-                  dict(name="pipe", args=["-specs", "1,12"]), dict(name="fault", args=["-specs", "48"])],
+                  dict(name="pipe", args=["-specs", "1,12"]), dict(name="fault", args=["-specs", "48"]),
+                  dict(name="remote", args=["-specs", "32,33"])],
         level_text="Theorems C02_history / C02_step / C02_commit / C02_initial: for every history of commands of the "
                    "whole-program model from any state with a well-formed cache (in particular the empty one), every "
                    "object is keyed by the hash of its bytes with mode 0444 and no object ever changes or disappears. "
